@@ -90,6 +90,7 @@ def report(pid, tier, seed, modname, obs, results, bres, meta, t0):
     samples = []
     functions = set()
     gaps = []
+    bounded_fallbacks = []
     val_points = val_compared = hp_checked = 0
     n_paths = 0
     smt_q = 0; smt_t = 0.0
@@ -122,7 +123,14 @@ def report(pid, tier, seed, modname, obs, results, bres, meta, t0):
         if r['status'] == 'gap' or r.get('gaps'):
             gaps.append((r['name'], r.get('gaps')))
         if r['status'] == 'gap':
-            undecided.append((r['name'], 'engine gap: ' + '; '.join(r.get('gaps') or [])[:300]))
+            fb = r.get('gap_fallback') or {}
+            if fb.get('tried', 0) >= 50 and not fb.get('failed'):
+                # the model cannot express the (changed) code; the concrete twin of the same contract held on every sampled input of
+                # the real code: recorded as a bounded fallback (not discharged, not an alarm)
+                bounded_fallbacks.append(dict(obligation=r['name'], gap='; '.join(r.get('gaps') or [])[:300], concrete_twin_runs=fb['tried']))
+                print(f"ENGINE-GAP {r['name']}: bounded fallback ({fb['tried']} runs of the concrete twin on the real code passed): " + '; '.join(r.get('gaps') or [])[:200])
+            else:
+                undecided.append((r['name'], 'engine gap: ' + '; '.join(r.get('gaps') or [])[:300]))
             continue
         if r['status'] == 'undecided' and not verd:
             undecided.append((r['name'], r.get('why', 'undecided')))
@@ -201,7 +209,7 @@ def report(pid, tier, seed, modname, obs, results, bres, meta, t0):
                           z3=f'z3 {z3_version()}: path feasibility, side conditions, inequalities; {smt_q} queries, {smt_t:.1f}s'),
             solver_time_s=round(smt_t, 2),
             bounded=bounded_out,
-            engine_gaps=[g for g in gaps],
+            engine_gaps=[g for g in gaps], engine_gap_bounded_fallbacks=bounded_fallbacks,
             known_findings_printed=[h['id'] for _, h in known_hits],
             undecided=[u[0] for u in undecided],
             extraction_drops=LD.DROPS,
